@@ -7,6 +7,7 @@ import (
 	"sort"
 	"strings"
 	"sync/atomic"
+	"time"
 
 	"verif/mc"
 
@@ -326,7 +327,7 @@ func gcd(a, b int) int {
 // checkLong drives one long history and compares, after every call, each
 // tracked element's last reported position with where Peek finds it.
 func checkLong(c longCase) *mc.Failure {
-	return mc.GuardT("heap-long", c, func() *mc.Failure {
+	return mc.GuardTL("heap-long", c, 20*time.Minute, func() *mc.Failure {
 		cmp := asc
 		if c.Desc {
 			cmp = dsc
@@ -472,7 +473,7 @@ func checkLong(c longCase) *mc.Failure {
 func main() {
 	var cnt counters
 	mc.Main("C06", mc.Harness{
-		Name: "heap-long",
+		Name: "heap-long", HangLimit: 20 * time.Minute,
 		Explore: func(r *mc.Run) {
 			var cases []longCase
 			for _, n := range mc.Pick(r, []int{17, 33, 64, 65, 130, 300}, []int{17, 33, 64, 65, 130, 300, 1023, 1024, 1025, 3000}) {
